@@ -310,6 +310,36 @@ pub fn not(level: u8, f: &mut dyn FnMut(Case)) {
     }
 }
 
+/// C03: negated comparisons at the magnitudes where a number stops being exact in another width.
+pub fn not_cmp(_level: u8, f: &mut dyn FnMut(Case)) {
+    let two53 = 1i64 << 53;
+    let dom = vec![
+        T::Int(i32::MAX as i64),
+        T::Int(i32::MAX as i64 + 1),
+        T::Int(1i64 << 32),
+        T::Int(two53),
+        T::Int(two53 + 1),
+        T::Int(i64::MAX - 1),
+        T::Int(i64::MAX),
+        T::Int(i64::MIN),
+        T::Float(two53 as f64),
+        T::Float(1e300),
+        T::Float(0.1),
+    ];
+    for x in &dom {
+        for y in &dom {
+            for rel in Rel::ALL {
+                let p: Program = vec![
+                    rule("p", vec![atom("bound")], G::And(vec![G::Unify(v("$A"), x.clone()), G::Unify(v("$B"), y.clone()), G::Not(Box::new(G::Cmp(rel, v("$A"), v("$B"))))])),
+                    rule("p", vec![atom("literal")], G::Not(Box::new(G::Cmp(rel, x.clone(), y.clone())))),
+                    rule("p", vec![atom("twice")], G::Not(Box::new(G::Not(Box::new(G::Cmp(rel, x.clone(), y.clone())))))),
+                ];
+                f(Case { family: "not@scale", prog: p, queries: vec![cplx("p", vec![v("$Z")])] });
+            }
+        }
+    }
+}
+
 /// C04: long formats, many prints, long print_list, output across many retries.
 pub fn output(level: u8, f: &mut dyn FnMut(Case)) {
     let fam = "output@scale";
@@ -321,6 +351,29 @@ pub fn output(level: u8, f: &mut dyn FnMut(Case)) {
         let mut p = gen.clone();
         p.push(rule("p", vec![v("$X")], G::And(vec![call("g", vec![v("$X")]), G::Print(args), G::Nl, G::Cmp(Rel::Ge, v("$X"), T::Int(k as i64 - 1))])));
         f(Case { family: fam, prog: p, queries: vec![cplx("p", vec![v("$Z")])] });
+        // j markers, k values (j = 1, 2, k-1, k+1), values beyond the markers follow the text
+        for j in [1usize, 2, k - 1, k + 1] {
+            let fmt: String = (0..j).map(|i| format!("{}%s", i)).collect::<String>() + ": ";
+            let mut args = vec![atom(&fmt)];
+            args.extend((0..k).map(|i| if i % 2 == 0 { v("$X") } else { T::Int(i as i64) }));
+            let mut p = gen.clone();
+            p.push(rule("p", vec![v("$X")], G::And(vec![call("g", vec![v("$X")]), G::Print(args), G::Nl, G::Cmp(Rel::Ge, v("$X"), T::Int(k as i64 - 1))])));
+            f(Case { family: fam, prog: p, queries: vec![cplx("p", vec![v("$Z")])] });
+        }
+        // print_list of a short list whose tail is bound (through one and two steps) to k elements
+        for hops in [1usize, 2] {
+            let tail_list = list((0..k).map(|i| if i == k / 2 { v("$X") } else { T::Int(i as i64) }).collect());
+            let mut goals = vec![G::Unify(v("$X"), T::Int(7))];
+            if hops == 2 {
+                goals.push(G::Unify(v("$T"), v("$T2")));
+                goals.push(G::Unify(v("$T2"), tail_list));
+            } else {
+                goals.push(G::Unify(v("$T"), tail_list));
+            }
+            goals.push(G::PrintList(vec![list_t(vec![a()], v("$T"))]));
+            goals.push(G::PrintList(vec![list_t(vec![a(), b(), v("$X")], v("$T"))]));
+            f(Case { family: fam, prog: vec![rule("p", vec![v("$X")], G::And(goals))], queries: vec![cplx("p", vec![v("$Z")])] });
+        }
         let mut p = gen.clone();
         let mut goals = vec![call("g", vec![v("$X")])];
         goals.extend((0..k).map(|i| G::Print(vec![T::Int(i as i64), atom(":"), v("$X"), atom(" ")])));
